@@ -1,12 +1,17 @@
 ----------------------------- MODULE FrameConfigs -----------------------------
 (* C07 - the configuration space handed to the real FuncDetail/FuncFrame/emit_prolog/emit_epilog.           *)
-(* A configuration is built dimension by dimension (one step per dimension), so that                        *)
+(* A configuration = environment x convention x user-preserved registers x a SEQUENCE of FuncFrame setter   *)
+(* calls (ops).  The values (sizes, alignments, masks, attributes) and the ORDER/shape of the calls that     *)
+(* install them (permutation of the four stack setters, set_* / update_* / set-then-update / update-then-set  *)
+(* repetitions, attribute calls before or after) are separate dimensions.  The contract of the setters - what *)
+(* a sequence promises to the body - is stated in FrameMachine.tla (Eff); the harness only executes the calls. *)
+(* The space is built dimension by dimension (one step per dimension), so that                               *)
 (*   - TLC model checking enumerates the full cross product of the profile's domains, and                   *)
 (*   - TLC -simulate draws uniformly random configurations from the "wide" profile (depth = NDims).         *)
 (* Every completed configuration is printed (PrintT <<"CFG", ...>>) and replayed on the real code.          *)
 EXTENDS Integers, Sequences, FiniteSets, TLC, SequencesExt
 
-CONSTANT Profile          \* "quick" | "thorough" | "wide"
+CONSTANT Profile          \* "quick" | "thorough" | "orders" | "orders_thorough" | "wide"
 
 VARIABLE c                \* choices made so far (sequence), c[1] = <<env, cc>>
 vars == <<c>>
@@ -29,38 +34,57 @@ IsX86(cc) == Env(cc) \in {"x86-sysv", "x86-win"}
 IsX64(cc) == Env(cc) \in {"x64-sysv", "x64-win"}
 IsA64(cc) == Env(cc) \in {"a64-aapcs", "a64-apple"}
 
-NDims == 15
-DimNames == <<"envcc", "dgp", "dvec", "extras", "ls", "la", "cs", "ca", "fp", "avx", "cleanup", "nargs", "sa", "calls", "ibt">>
+NDims == 17
+DimNames == <<"envcc", "dgp", "dvec", "extras", "ls", "la", "cs", "ca", "fp", "avx", "cleanup", "nargs", "sa", "calls", "ibt", "order", "end">>
 
 (* domains per profile; `s` = choices so far *)
+(* the 24 orders of the four stack setters (1 = local size, 2 = local alignment, 3 = call size, 4 = call alignment) *)
+Perm4 == {p \in [1..4 -> 1..4] : \A a, b \in 1..4 : a # b => p[a] # p[b]}
+PSeq(p) == <<p[1], p[2], p[3], p[4]>>
+Canon == <<1, 2, 3, 4>>
+RAOrder == <<3, 4, 2, 1>>       \* BaseRAPass: call stack size/alignment while the CFG is built, then local alignment, local size
+(* how one value is installed: set_X(v) | update_X(v) | set_X(v/2);update_X(v) | set_X(v);update_X(v/2) | update_X(2v);set_X(v) *)
+Kinds == {"set", "update", "lo_update", "update_lo", "hi_set"}
+
 Dom(d, s) ==
   LET q == Profile = "quick"
       t == Profile = "thorough"
+      o == Profile \in {"orders", "orders_thorough"}     \* few values, EVERY order
+      ot == Profile = "orders_thorough"
       n == DimNames[d]
   IN
-  CASE n = "envcc"   -> IF q THEN EnvCC \ QuickSkip ELSE EnvCC
-    [] n = "dgp"     -> IF q THEN {"none", "all"} ELSE IF t THEN {"none", "lo", "all"}
+  CASE n = "envcc"   -> IF o THEN {<<"x64-sysv", "cdecl">>, <<"x86-sysv", "cdecl">>, <<"a64-aapcs", "cdecl">>} \cup
+                                  (IF ot THEN {<<"x64-win", "cdecl">>, <<"x86-win", "stdcall">>} ELSE {})
+                        ELSE IF q THEN EnvCC \ QuickSkip ELSE EnvCC
+    [] n = "dgp"     -> IF o THEN {"all"} ELSE IF q THEN {"none", "all"} ELSE IF t THEN {"none", "lo", "all"}
                         ELSE {"none", "lo", "hi", "alt", "odd", "all", "pres"}
-    [] n = "dvec"    -> IF q \/ t THEN {"none", "all"}
+    [] n = "dvec"    -> IF o THEN {"none"} ELSE IF q \/ t THEN {"none", "all"}
                         ELSE {"none", "lo", "hi", "alt", "all", "all32"}
-    [] n = "extras"  -> IF IsA64(s) THEN {"none"}
+    [] n = "extras"  -> IF IsA64(s) \/ o THEN {"none"}
                         ELSE IF q THEN {"none", "cust1"} ELSE IF t THEN {"none", "cust1", "cust2", "cust4"}
                         ELSE {"none", "kmm", "cust1", "cust2", "cust3", "cust4"}
-    [] n = "ls"      -> IF q THEN {0, 40} ELSE IF t THEN {0, 8, 4104} ELSE {0, 1, 8, 24, 40, 4096, 4104, 65528}
-    [] n = "la"      -> IF q THEN {0, 64} ELSE IF t THEN {0, 8, 32} ELSE {0, 1, 4, 8, 16, 32, 64}
-    [] n = "cs"      -> IF q THEN {0, 32} ELSE IF t THEN {0, 40} ELSE {0, 8, 32, 100}
-    [] n = "ca"      -> IF q \/ t THEN {0} ELSE {0, 16, 32, 64}
+    [] n = "ls"      -> IF o THEN {0, 40} ELSE IF q THEN {0, 40} ELSE IF t THEN {0, 8, 4104} ELSE {0, 1, 8, 24, 40, 4096, 4104, 65528}
+    [] n = "la"      -> IF o THEN (IF ot THEN {0, 8, 16, 32, 64} ELSE {0, 16, 64}) ELSE IF q THEN {0, 64} ELSE IF t THEN {0, 8, 32}
+                        ELSE {0, 1, 4, 8, 16, 32, 64}
+    [] n = "cs"      -> IF o THEN {32} ELSE IF q THEN {0, 32} ELSE IF t THEN {0, 40} ELSE {0, 8, 32, 100}
+    [] n = "ca"      -> IF o THEN (IF ot THEN {0, 16, 32, 64} ELSE {0, 32}) ELSE IF q THEN {0} ELSE IF t THEN {0, 32} ELSE {0, 16, 32, 64}
     [] n = "fp"      -> {0, 1}
-    [] n = "avx"     -> IF IsA64(s) THEN {0} ELSE IF q THEN {0, 1} ELSE {0, 1, 2}
-    [] n = "cleanup" -> IF IsA64(s) \/ q \/ t THEN {<<0, 0>>}
+    [] n = "avx"     -> IF IsA64(s) \/ o THEN {0} ELSE IF q THEN {0, 1} ELSE {0, 1, 2}
+    [] n = "cleanup" -> IF IsA64(s) \/ q \/ t \/ o THEN {<<0, 0>>}
                         ELSE {<<0, 0>>, <<1, 0>>, <<0, 1>>, <<0, 2>>, <<1, 2>>}       \* <<emms, vzeroupper mode>>
-    [] n = "nargs"   -> IF q \/ t THEN {10} ELSE {0, 3, 10, 14}
-    [] n = "sa"      -> (IF s[9] = 1 THEN {255, 254} ELSE {255})
+    [] n = "nargs"   -> IF q \/ t \/ o THEN {10} ELSE {0, 3, 10, 14}
+    [] n = "sa"      -> IF o THEN {255} ELSE
+                        (IF s[9] = 1 THEN {255, 254} ELSE {255})
                         \cup (IF IsA64(s) \/ q THEN {} ELSE IF t THEN {0} ELSE {0, 3, 6})
                         \* stack-arguments base register: 255 = let the frame decide; 254 = the frame pointer (what
                         \* FuncArgsAssignment::update_func_frame picks when FP is preserved); else rax / rbx / rsi
-    [] n = "calls"   -> IF q \/ t THEN {IF s[7] > 0 THEN 1 ELSE 0} ELSE (IF s[7] > 0 THEN {1} ELSE {0, 1})
-    [] n = "ibt"     -> IF q \/ t THEN {0} ELSE {0, 1}
+    [] n = "calls"   -> IF q \/ t \/ o THEN {IF s[7] > 0 THEN 1 ELSE 0} ELSE (IF s[7] > 0 THEN {1} ELSE {0, 1})
+    [] n = "ibt"     -> IF q \/ t \/ o THEN {0} ELSE {0, 1}
+    [] n = "order"   -> \* <<order of the four stack setters, how each value is installed, attribute calls "first" | "last">>
+                        IF o THEN {<<PSeq(p), k, w>> : p \in Perm4, k \in (IF ot THEN Kinds ELSE Kinds \ {"hi_set"}), w \in {"last"}}
+                        ELSE IF q \/ t THEN {<<Canon, "set", "last">>, <<RAOrder, "update", "first">>}
+                        ELSE {<<PSeq(p), k, w>> : p \in Perm4, k \in Kinds, w \in {"first", "last"}}
+    [] n = "end"     -> {0}     \* (TLC -simulate evaluates invariants on every generated successor: the last step has one)
 
 Init == c = <<>>
 Next == /\ Len(c) < NDims
@@ -100,15 +124,38 @@ Extras(cls, s) ==
     [] cls = "cust2" -> <<{1, 2, 7}, {0, 5}, (IF IsX86(s) THEN {6, 7} ELSE {8, 9}), {1, 2, 7}, {0, 5}>>
     [] cls = "cust3" -> <<{}, {}, {2, 4, 5}, {}, {}>>                          \* user convention preserving xmm2/4/5
 
+(* the setter calls, <<name, a, g, ids>> each *)
+Op(name, a) == <<name, a, 0, <<>> >>
+OpD(g, S) == <<"add_dirty", 0, g, Sorted(S)>>
+Chain(kind, x, v) ==                     \* x in {"ls","la","cs","ca"}; a value 0 is not installed at all
+  LET st == "set_" \o x
+      up == "update_" \o x
+  IN IF v = 0 THEN <<>>
+     ELSE CASE kind = "set"       -> <<Op(st, v)>>
+            [] kind = "update"    -> <<Op(up, v)>>
+            [] kind = "lo_update" -> <<Op(st, v \div 2), Op(up, v)>>
+            [] kind = "update_lo" -> <<Op(st, v), Op(up, v \div 2)>>
+            [] kind = "hi_set"    -> <<Op(up, 2 * v), Op(st, v)>>
+StackVal(s, j) == IF j = 1 THEN s[5] ELSE IF j = 2 THEN s[6] ELSE IF j = 3 THEN s[7] ELSE s[8]
+StackName(j) == IF j = 1 THEN "ls" ELSE IF j = 2 THEN "la" ELSE IF j = 3 THEN "cs" ELSE "ca"
+StackOps(s) == LET p == s[16][1]
+                   k == s[16][2]
+                   C(j) == Chain(k, StackName(p[j]), StackVal(s, p[j]))
+               IN C(1) \o C(2) \o C(3) \o C(4)
+DirtyOps(s) == LET ex == Extras(s[4], s)
+                   D(g, S) == IF S = {} THEN <<>> ELSE <<OpD(g, S)>>
+               IN D(0, GpSet(s[2], s)) \o D(1, VecSet(s[3], s)) \o D(2, ex[1]) \o D(3, ex[2])
+AttrOps(s) == LET F(b, name) == IF b THEN <<Op(name, 0)>> ELSE <<>>
+                  sa == IF s[13] = 254 THEN (IF IsA64(s) THEN 29 ELSE 5) ELSE s[13]
+              IN F(s[9] = 1, "set_fp") \o F(s[10] >= 1, "set_avx") \o F(s[10] >= 2, "set_avx512") \o F(s[11][1] = 1, "set_mmx")
+                 \o F(s[11][2] = 1, "set_avxc") \o F(s[11][2] = 2, "set_avxauto") \o F(s[14] = 1, "set_calls") \o F(s[15] = 1, "set_ibt")
+                 \o (IF sa = 255 \/ (s[13] = 254 /\ s[9] = 0) THEN <<>> ELSE <<Op("set_sa", sa)>>)
+Ops(s) == IF s[16][3] = "first" THEN AttrOps(s) \o DirtyOps(s) \o StackOps(s) ELSE DirtyOps(s) \o StackOps(s) \o AttrOps(s)
+
 Cfg(s) ==
   LET ex == Extras(s[4], s) IN
-  << s[1][1], s[1][2],
-     Sorted(GpSet(s[2], s)), Sorted(VecSet(s[3], s)), Sorted(ex[1]), Sorted(ex[2]),
-     s[5], s[6], s[7], s[8], s[9], s[10], s[11][1], s[11][2], s[12],
-     (IF s[13] = 254 THEN (IF IsA64(s) THEN 29 ELSE 5) ELSE s[13]), s[14], s[15],
-     Sorted(ex[3]), Sorted(ex[4]), Sorted(ex[5]) >>
-(* field order of the printed tuple (checks/c07.py zips it with these names):                               *)
-(*   env cc d_gp d_vec d_k d_mm ls la cs ca fp avx mmx avxc nargs sa calls ibt cp_vec cp_k cp_mm           *)
+  << s[1][1], s[1][2], s[12], Sorted(ex[3]), Sorted(ex[4]), Sorted(ex[5]), Ops(s) >>
+(* field order of the printed tuple (checks/c07.py zips it with these names):  env cc nargs cp_vec cp_k cp_mm ops *)
 
 Export == Len(c) = NDims => PrintT(<<"CFG", Cfg(c)>>)
 =============================================================================
